@@ -64,7 +64,14 @@ where
     ///
     /// A stored constraint that subsumes the new one makes the new one redundant, and the
     /// new constraint is not added; stored constraints that the new one subsumes are removed.
-    pub fn push_and_normalize(&mut self, newc: Rc<dyn Constraint<U, E>>) {
+    ///
+    /// Returns the constraints that were dropped as redundant (the new constraint itself, or
+    /// the stored constraints it replaces), so that the caller can account for them.
+    pub fn push_and_normalize(
+        &mut self,
+        newc: Rc<dyn Constraint<U, E>>,
+    ) -> Vec<Rc<dyn Constraint<U, E>>> {
+        let mut dropped = vec![];
         if let Some(tree_newc) = newc.downcast_ref::<DisequalityConstraint<U, E>>() {
             let is_redundant = self.iter().any(|storec| {
                 match storec.downcast_ref::<DisequalityConstraint<U, E>>() {
@@ -73,7 +80,8 @@ where
                 }
             });
             if is_redundant {
-                return;
+                dropped.push(newc);
+                return dropped;
             }
 
             let mut normalized = HashSet::new();
@@ -82,6 +90,8 @@ where
                 if let Some(tree_storec) = storec.downcast_ref::<DisequalityConstraint<U, E>>() {
                     if !tree_newc.subsumes(tree_storec) {
                         normalized.insert(storec);
+                    } else {
+                        dropped.push(storec);
                     }
                 } else {
                     normalized.insert(storec);
@@ -90,6 +100,7 @@ where
             self.0 = normalized;
         }
         self.insert(newc);
+        dropped
     }
 
     /// Remove redundant constraints from the store
@@ -104,7 +115,7 @@ where
             return normalized_store;
         }
         for storec in self.0.into_iter() {
-            normalized_store.push_and_normalize(storec.into());
+            let _ = normalized_store.push_and_normalize(storec.into());
         }
         normalized_store
     }
